@@ -117,12 +117,14 @@ def slice_index(m, st, inst, args, t):
     s, idx = args
     if s[0] != "fat":
         raise Unanalysable("index of %s" % s[0])
-    ityp = m.ty(inst["args"][0]) if inst["args"] and isinstance(inst["args"][0], int) else None
+    iname = ""
+    for a in inst["args"]:
+        if isinstance(a, int) and m.ty(a)["k"] == "adt" and "ops::Range" in m.ty(a)["path"]:
+            iname = m.ty(a)["path"]
     if idx[0] != "agg":
         raise Unanalysable("slice index by %s" % idx[0])
     pb = m.p.ptr_bytes * 8
     zero = mk_int(0, pb)
-    iname = ityp["path"] if ityp and ityp["k"] == "adt" else ""
     if iname.endswith("RangeTo"):
         lo, hi = zero, idx[1][0]
     elif iname.endswith("RangeFrom"):
